@@ -15,7 +15,8 @@ def _label(ev):
     except Exception:
         return "?"
     extra = j.get("kind", j.get("k", j.get("r", "")))
-    return "%s(%s%s)" % (j.get("a", "?"), j.get("x", ""), ("," + str(extra)) if extra != "" else "")
+    who = j.get("x", "") or (("p%s" % j["p"]) if "p" in j else "")
+    return "%s(%s%s)" % (j.get("a", "?"), who, ("," + str(extra)) if extra != "" else "")
 
 
 def run(pkg, pid, tier, seed):
